@@ -22,7 +22,7 @@ func init() {
 		ID: "C02", Level: "model_checking",
 		Rule:   "ELX on the real Client.RoundTrip (dial, handshake, both loops) against a scripted x/net-HPACK server: 1-3 concurrent requests from a vocabulary (methods, tagged paths, header sets with connection-specific fields, bodies none / buffered / streamed declared / streamed unknown / streamed empty); server behaviour = every order of answering, every frame-by-frame interleaving of two responses, response header block split into HEADERS+CONTINUATION at every offset, every representation of :status and of a literal field, padded and empty DATA frames, every chunking of a 3-byte body. Oracle, server side: each request arrives once, on the next odd id, with exactly the caller's method/path/authority/scheme, fields (minus connection-specific ones; derived user-agent/content-length/content-type tolerated) and body, END_STREAM once; caller side: status, fields and body are those the script sent on THAT stream, and no error. Non-trivial: >= 2 requests or a non-default response encoding; distinct by scenario.",
 		Assume: []string{"callers are started one at a time (submission races are explored in C19)", "fasthttp's derived request headers (user-agent, content-length, content-type) may be added by the client"},
-		Run:    runC02, Replay: replayC02, Policies: 1, QuickS: 120, ThoroughS: 900,
+		Run:    runC02, Replay: replayC02, Policies: 1, QuickS: 200, ThoroughS: 900,
 	})
 }
 
